@@ -11,7 +11,7 @@ Labelled bounded; never counted as proved.
 """
 import struct
 
-from pyvc.api import bounded, load, check, rng
+from pyvc.api import bounded, load, check, rng, tier
 
 FI = 'oslo_utils/imageutils/format_inspector.py'
 CLI = 'oslo_utils/imageutils/cli.py'
@@ -161,11 +161,12 @@ def chunkings(n, cuts, r, extra_sizes=(1, 17, 512, 4096, 65536)):
     for c in cuts:
         out.append([c, n - c])
         out.append([c, 0, n - c])
-    for _ in range(6):
+    scale = 1 if tier() == 'quick' else 8
+    for _ in range(6 * scale):
         if len(cuts) >= 2:
             a, b = sorted(r.sample(cuts, 2))
             out.append([a, b - a, n - b])
-    for _ in range(4):
+    for _ in range(4 * scale):
         k = r.randint(2, 6)
         pts = sorted(r.randint(0, n) for _ in range(k))
         sizes = [b - a for a, b in zip([0] + pts, pts + [n])]
